@@ -587,7 +587,7 @@ func http1SurplusDecidedOnCounts(c *Ctx, rule, key string) {
 					okAll = false
 					return
 				}
-				r := x.Results[0]
+				r := unspill(x, 0)
 				// `a || b` returns a phi: the value that came in over the edge taken
 				if phi, isPhi := r.(*ssa.Phi); isPhi && phi.Block() == b && prev != nil {
 					for i, p := range b.Preds {
